@@ -32,6 +32,27 @@ theorem documented_cases :
     ([TCon.threadedRodeo, .reader, .resolver].all fun c => isM .sync c (asgOf true true true true)) = true := by
   decide
 
+/-- With the container's own manual impl set aside, do all of its fields carry the marker (the auto-trait rule
+applied to the regenerated field types, manual impls of the parts - the storage blocks - included)? -/
+def fieldsCarry (m : Marker) (c : TCon) (a : Asg) : Bool :=
+  match Extracted.structDefs.find? (fun d => d.name == c) with
+  | some d => d.fields.all fun f => holds Extracted.structDefs Extracted.markerImpls 8 a m f
+  | none => false
+
+/-- The manual `unsafe impl Send / Sync` of the single-threaded interner, the reader and the resolver claim nothing
+their fields do not carry: for every assignment under which the manual impl applies, every field has the marker by
+the auto-trait rule.  (A manual impl switches the compiler's own check off: a new field with interior mutability -
+a `Cell` memo, an `Rc` - would otherwise stay `Sync` / `Send` silently.)  For the concurrent interner the manual
+bounds are weaker than what `DashMap` asks of its key type structurally, so only the documented case - ordinary
+`Send + Sync` keys and hashers - is stated for it. -/
+theorem manual_impls_justified_by_fields :
+    ([TCon.rodeo, .reader, .resolver].all fun c => bools.all fun sk => bools.all fun yk => bools.all fun ss => bools.all fun ys =>
+      (!isM .send c (asgOf sk yk ss ys) || fieldsCarry .send c (asgOf sk yk ss ys)) &&
+      (!isM .sync c (asgOf sk yk ss ys) || fieldsCarry .sync c (asgOf sk yk ss ys))) = true ∧
+    fieldsCarry .send .threadedRodeo (asgOf true true true true) = true ∧
+    fieldsCarry .sync .threadedRodeo (asgOf true true true true) = true := by
+  decide
+
 /-- Exactly the manual marker impls the theorems above rely on are present, in the extractor's canonical (sorted) order: the order of
 impl blocks and of bounds in the source means nothing (a dropped bound or a new unconditional impl
 changes this table). -/
